@@ -6,7 +6,7 @@ from . import common
 from .cli import TABLE
 
 CHECKS = {
-    "C01": ("exploration", "6/C01", "runtime monitor: real converter round-trip judged by metamodel OK-relation over generated + forced-union workloads; hook tap",
+    "C01": ("exploration", "6/C01", "runtime monitor: real converter round-trip judged by metamodel OK-relation over generated, forced-union (single/pair optional toggles, hetero arrays), wide/deep and hostile-value workloads with case histories (key order, earlier failing call, repeated call, all classes exercised first); hook tap",
             "Held on the executions produced: every root type x directed/random/forced-alternative values parsed and re-serialised by the real converter and judged by an independent metamodel oracle. Sampling of values, enumeration of union alternatives per occurrence.",
             "trusted: vf/mm.py reference semantics (flattening, null rule, envelope model); values are sampled"),
     "C02": ("exploration", "6/C02", "runtime monitor: constructor-path builder + exact normal-form oracle + re-parse stability",
@@ -39,13 +39,13 @@ CHECKS = {
             "Every eligible site of sampled values of every structure x four edits.", "any exception counts as rejection"),
     "C15": ("exploration", "6/C15", "runtime monitor: fresh-key injection at protocol-object nodes, attrs-equality and re-serialisation compared with the base run",
             "Sampled bases x one/several/all nodes.", "fresh = declared by no structure"),
-    "C16": ("exploration", "6/C16", "real generator processes under fs/uuid tap across hash seeds, run histories and stale directories; owned-file hash comparison; uuid4 taint scan",
+    "C16": ("exploration", "6/C16", "real generator processes under fs/uuid tap across hash seeds, on-disk run histories (re-run, other model, stale files incl. custom-class names), in-process histories (same-shape model, other model, then the model under test), a model with colliding anonymous literals and keyword classes in two processes; owned-file hash comparison; uuid4 taint scan",
             "4 plugins x configurations x histories.", "files a plugin does not own are not judged"),
     "C17": ("exploration", "6/C17", "all vectors of the real testdata plugin (writes captured in memory) judged by the independent strict validity oracle; True vectors through the real converter",
             "Exhaustive over all 73,988 vectors and 164 message classes.", "envelope model DESIGN 3.4"),
-    "C18": ("fault_enumeration", "6/C18", "read-back/merge/equality monitors on the real loader + schema-violating single edits x 4 plugins as real processes under the fs tap and plugin-entry probe",
+    "C18": ("fault_enumeration", "6/C18", "read-back/merge/aliasing/equality monitors on the real loader (incl. edits inside type expressions) + schema-violating single edits x 4 plugins as real processes under the fs tap and plugin-entry probe, with 1-3 model files and an in-process good-then-bad history",
             "Fault enumeration of schema-violating edits x plugins; lossless/equality by exhaustive node-pair comparison on several documents.", "schema violation judged against #/definitions/MetaModel"),
-    "C19": ("exploration", "6/C19", "creation histories compared on a fixed battery + fresh-process schedule trials with barrier, switch interval 1e-6 and seeded sys.monitoring LINE yield injection; distinct interleavings counted",
+    "C19": ("exploration", "6/C19", "creation histories over 7 configurations, each live converter compared with a first-created converter of its own configuration from a fresh process (battery incl. forced union shapes) + fresh-process schedule trials with barrier, switch interval 1e-6 and seeded sys.monitoring LINE yield injection; distinct interleavings counted; shared-converter concurrent first use",
             "All histories up to length k; hundreds of injected schedules; held on what was observed.", "yield at statement start manufactures no impossible interleaving"),
     "C20": ("exploration", "6/C20", "icontract postconditions on Position.__eq__/__gt__ + exhaustive boundary grid and random pairs against tuple order",
             "Grid exhaustive (1296 pairs) + random pairs; Range/Location structural equality; unrelated-object probes; reprs.", "tuple order is the reference"),
